@@ -171,7 +171,10 @@ class SymEx:
             elif 'idx' in e:
                 v = ('index', v, path.env.get(e['idx'], ('undef', e['idx'])))
             elif 'ci' in e:
-                v = ('index', v, ('const', e['ci'], 'usize'))
+                if v[0] == 'bytes' and not e.get('from_end') and isinstance(e['ci'], int) and e['ci'] < len(v[1]):
+                    v = ('const', v[1][e['ci']], 'u8')   # element of a concrete byte string (see bytes_model)
+                else:
+                    v = ('index', v, ('const', e['ci'], 'usize'))
             else:
                 v = ('proj', v, str(e))
         return v
@@ -253,6 +256,8 @@ class SymEx:
             a = self.operand(path, rv['a'])
             if rv['op'] == 'Not' and a[0] == 'const' and a[2] == 'bool':
                 return ('const', 1 - a[1], 'bool')
+            if rv['op'] == 'PtrMetadata' and a[0] == 'ref' and a[1][0] == 'bytes':
+                return ('const', len(a[1][1]), 'usize')
             return ('un', rv['op'], a)
         if k == 'discr':
             v = self.read_place(path, rv['place'])
@@ -547,6 +552,79 @@ def derived_eq_model(F):
                 return ('const', int((vs[0][2] == vs[1][2]) == nm.endswith('::eq')), 'bool')
         return None
     return model
+
+
+def bytes_model(nm, args, t, path):
+    """Call model for a concrete string: the term ('ref', ('bytes', b'..')) stands for a `&str` / `&[u8]` whose content is known
+    (a sample text). The read-only string and slice methods used to classify a text are evaluated on it; anything else is
+    left symbolic (the caller then sees a non-constant result and reports the form as not interpretable)."""
+    def data(x):
+        while isinstance(x, tuple) and x and x[0] in ('ref', 'deref') and not (x[0] == 'ref' and x[1][0] == 'bytes'):
+            x = x[1]
+        if isinstance(x, tuple) and x and x[0] == 'ref' and x[1][0] == 'bytes':
+            return x[1][1]
+        if isinstance(x, tuple) and x and x[0] == 'bytes':
+            return x[1]
+        return None
+    def opt(v):
+        return ('agg', 'std::option::Option', 'None', {}) if v is None else ('agg', 'std::option::Option', 'Some', {'0': v})
+    def pattern(x):
+        if x[0] == 'const' and isinstance(x[1], int):
+            return chr(x[1]).encode()
+        d_ = data(x)
+        if d_ is not None:
+            return d_
+        if x[0] in ('ref', 'deref'):
+            return pattern(x[1])
+        if x[0] == 'const' and isinstance(x[1], str):
+            return x[1].encode()
+        return None
+    base = nm.split('::')[-1]
+    d = data(args[0]) if args else None
+    if d is None and base == 'next' and len(args) == 1:
+        it = args[0]
+        while isinstance(it, tuple) and it and it[0] in ('ref', 'deref'):
+            it = it[1]
+        if isinstance(it, tuple) and it and it[0] == 'bytesiter' and not any(n2 == nm for n2, a2, b2 in path.calls):
+            if it[2] == 'chars':
+                txt = it[1].decode('utf-8', 'replace')
+                return opt(('const', ord(txt[0]), 'char') if txt else None)
+            return opt(('const', it[1][0], 'u8') if it[1] else None)
+    if d is None:
+        if base in ('eq', 'ne') and 'std::option::Option<T> as std::cmp::PartialEq' in nm and len(args) == 2:
+            def strip(x):
+                while isinstance(x, tuple) and x and x[0] in ('ref', 'deref'):
+                    x = x[1]
+                if isinstance(x, tuple) and x and x[0] == 'agg':
+                    return ('agg', x[1], x[2], tuple(sorted((k, strip(v)) for k, v in x[3].items())))
+                if isinstance(x, tuple) and x and x[0] == 'const':
+                    return ('const', x[1])
+                return x
+            a, b_ = strip(args[0]), strip(args[1])
+            if all(z[0] == 'agg' and all(v[0] == 'const' for k, v in z[3]) for z in (a, b_)):
+                return ('const', int((a == b_) == (base == 'eq')), 'bool')
+        return None
+    if base in ('as_ref', 'borrow', 'deref', 'as_bytes', 'as_str', 'clone', 'into', 'from') and len(args) == 1:
+        return ('ref', ('bytes', d))
+    if base == 'len' and len(args) == 1:
+        return ('const', len(d), 'usize')
+    if base == 'is_empty' and len(args) == 1:
+        return ('const', int(len(d) == 0), 'bool')
+    if base in ('starts_with', 'ends_with', 'contains') and len(args) == 2 and ('impl str>' in nm or 'impl [T]>' in nm):
+        pt = pattern(args[1])
+        if pt is not None:
+            return ('const', int(d.startswith(pt) if base == 'starts_with' else d.endswith(pt) if base == 'ends_with' else pt in d), 'bool')
+    if base in ('strip_prefix',) and len(args) == 2 and 'impl str>' in nm:
+        pt = pattern(args[1])
+        if pt is not None:
+            return opt(('ref', ('bytes', d[len(pt):])) if d.startswith(pt) else None)
+    if base == 'first' and len(args) == 1 and 'impl [T]>' in nm:
+        return opt(('ref', ('const', d[0], 'u8')) if d else None)
+    if base == 'get' and len(args) == 2 and 'impl [T]>' in nm and args[1][0] == 'const' and isinstance(args[1][1], int):
+        return opt(('ref', ('const', d[args[1][1]], 'u8')) if args[1][1] < len(d) else None)
+    if base in ('chars', 'bytes', 'iter', 'into_iter', 'copied') and len(args) == 1:
+        return ('ref', ('bytes', d)) if base in ('iter', 'into_iter') else ('bytesiter', d, base if base != 'copied' else 'bytes')
+    return None
 
 
 def cond_map(path):
